@@ -295,5 +295,12 @@ def run(ctx):
     if index:
         k = sorted(index)[0]
         ctx.sample({"kind": "real-watershed run validated by PartitionTrace", "fn": index[k][0], "E": index[k][1], "shape": index[k][2]})
+    # ---- extension beyond the listed property: the Hanson & Phillips merging (hp01) as a state machine, model-checked and
+    # trace-validated; reported in the evidence notes only
+    try:
+        from harness import hp01_ext
+        hp01_ext.stage(ctx, 40 if ctx.quick else 400)
+    except Exception as ex:  # noqa  (never decides C03)
+        ctx.note("extension_hp01", {"error": "%s: %s" % (type(ex).__name__, str(ex)[:200])})
     ctx.assume("energies are integers (float32-exact); wave-age masks are realised by one wind in deep water with a 0.5 % decision margin; "
                "exact ties wsfrac = wscut are not replayed; ordering among equal array-level Hs is free")
